@@ -49,6 +49,9 @@ func (c C15Cli) bytes() []byte {
 		b = append(b, 0x00)
 	case "longint":
 		b = append(b, 0, byte(refdec.LOAD), 1, 'a', 5, 1, 2, 3, 4, 5)
+	case "lf", "crlf", "lflf", "nul", "space", "eof":
+		// what text tools and transfers leave behind an image: half an opcode or an undefined one
+		b = append(b, map[string][]byte{"lf": {0x0a}, "crlf": {0x0d, 0x0a}, "lflf": {0x0a, 0x0a}, "nul": {0x00}, "space": {0x20}, "eof": {0x1a}}[c.Tail]...)
 	}
 	return b
 }
@@ -61,7 +64,7 @@ func genC15Cli(t *rapid.T) C15Cli {
 		// buffer limit: make the unit's length divide it
 		c.Unit = []Instr{{Op: refdec.HALT}}
 	}
-	c.Tail = []string{"none", "truncated", "opcode", "halfopcode", "longint"}[uniformN(t, 5, "tail")]
+	c.Tail = []string{"none", "truncated", "opcode", "halfopcode", "longint", "none", "truncated", "opcode", "halfopcode", "longint", "lf", "crlf", "lflf", "nul", "space", "eof"}[uniformN(t, 16, "tail")]
 	c.More = chancePct(t, 15, "more")
 	return c
 }
